@@ -38,6 +38,7 @@ type CtxMon struct {
 // Mon holds the history variables. It is part of the state identity.
 type Mon struct {
 	Vol       map[string]uint64 `json:"vol,omitempty"`
+	VolBase   map[string]uint64 `json:"volbase,omitempty"` // responses delivered before the chain was restarted from a zero-height export
 	Req       map[string]ReqMon `json:"req,omitempty"`
 	Ctx       map[string]CtxMon `json:"ctx,omitempty"`
 	CB        map[string]int    `json:"cb,omitempty"`
@@ -49,7 +50,7 @@ type Mon struct {
 func NewMon() *Mon { return &Mon{} }
 
 func (m *Mon) Bytes() []byte {
-	if len(m.Vol) == 0 && len(m.Req) == 0 && len(m.Ctx) == 0 && len(m.CB) == 0 && len(m.Killed) == 0 && len(m.Dis) == 0 && len(m.Restarted) == 0 {
+	if len(m.Vol) == 0 && len(m.VolBase) == 0 && len(m.Req) == 0 && len(m.Ctx) == 0 && len(m.CB) == 0 && len(m.Killed) == 0 && len(m.Dis) == 0 && len(m.Restarted) == 0 {
 		return nil
 	}
 	b, err := json.Marshal(m) // map keys are emitted sorted: canonical
@@ -72,6 +73,12 @@ func ParseMon(b []byte) *Mon {
 
 func (m *Mon) clone() *Mon {
 	c := &Mon{}
+	if len(m.VolBase) > 0 {
+		c.VolBase = make(map[string]uint64, len(m.VolBase))
+		for k, v := range m.VolBase {
+			c.VolBase[k] = v
+		}
+	}
 	if len(m.Vol) > 0 {
 		c.Vol = make(map[string]uint64, len(m.Vol))
 		for k, v := range m.Vol {
